@@ -4,12 +4,16 @@ import (
 	"encoding/json"
 	"flag"
 	"fmt"
+	"go/ast"
+	"go/types"
 	"os"
 	"path/filepath"
 	"sort"
 	"strconv"
 	"strings"
 	"time"
+
+	"golang.org/x/tools/go/ssa"
 )
 
 const verifDir = "/verif"
@@ -144,6 +148,22 @@ func cmdCheck(args []string) int {
 			vc.obls = keep
 			vcs = append(vcs, vc)
 		}
+	}
+	// global invariants: proved of the package init functions of every package that owns a function under check
+	pkgsSeen := map[string]bool{}
+	for _, vc := range vcs {
+		if vc.fn != nil && vc.fn.Pkg != nil {
+			pkgsSeen[vc.fn.Pkg.Pkg.Path()] = true
+		}
+	}
+	for _, ivc := range initVCs(P, S, pkgsSeen) {
+		if len(ivc.errs) > 0 {
+			fails = append(fails, failure{Obligation: ivc.key + "/contract-resolve", Func: ivc.key, Reason: "global invariant unresolvable: " + strings.Join(ivc.errs, "; "), Status: "error"})
+		}
+		vcs = append(vcs, ivc)
+	}
+	for _, w := range globalWriters(P, S, pkgsSeen) {
+		fails = append(fails, failure{Obligation: "global-inv/writer:" + w, Reason: "a function other than the package initialiser writes a package-level table that a global invariant describes: " + w, Status: "scan"})
 	}
 	// lemmas
 	lvc := lemmaVC(P, S, pid)
@@ -356,4 +376,98 @@ func failRank(name string) int {
 		return 3
 	}
 	return 4
+}
+
+// initVCs verifies the global invariants as postconditions of the owning packages' init functions.
+func initVCs(P *Program, S *Specs, pkgs map[string]bool) []*FuncVC {
+	byPkg := map[string][]*Clause{}
+	for _, gi := range S.GlobalInv {
+		if gi.Ctx != nil && gi.Ctx.Pkg != nil {
+			byPkg[gi.Ctx.Pkg.Path()] = append(byPkg[gi.Ctx.Pkg.Path()], gi)
+		}
+	}
+	var out []*FuncVC
+	var paths []string
+	for p := range byPkg {
+		paths = append(paths, p)
+	}
+	sort.Strings(paths)
+	for _, p := range paths {
+		key := shortPkg(p) + ".init"
+		fn := P.Func(key)
+		if fn == nil {
+			continue
+		}
+		con := &Contract{Key: key, Ctx: byPkg[p][0].Ctx, Where: byPkg[p][0].Where, NoOverflow: true}
+		for _, gi := range byPkg[p] {
+			c := *gi
+			c.Kind = "ensures"
+			c.Label = "global-inv"
+			con.Ensures = append(con.Ensures, &c)
+		}
+		vc := NewFuncVC(P, S, fn, con)
+		vc.isInit = true
+		vc.Encode()
+		out = append(out, vc)
+	}
+	return out
+}
+
+// globalWriters scans the repository for stores to the package-level variables mentioned by global
+// invariants (and to maps / slices / objects loaded from them) outside the package initialisers.
+func globalWriters(P *Program, S *Specs, pkgs map[string]bool) []string {
+	tracked := map[string]bool{}
+	for _, gi := range S.GlobalInv {
+		if gi.Ctx == nil || gi.Ctx.Pkg == nil {
+			continue
+		}
+		ast.Inspect(gi.Expr, func(n ast.Node) bool {
+			if id, ok := n.(*ast.Ident); ok {
+				if v, ok := gi.Ctx.Pkg.Scope().Lookup(id.Name).(*types.Var); ok {
+					tracked[v.Pkg().Path()+"."+v.Name()] = true
+				}
+			}
+			return true
+		})
+	}
+	var chase func(v ssa.Value, depth int) string
+	chase = func(v ssa.Value, depth int) string {
+		if depth > 6 {
+			return ""
+		}
+		switch x := v.(type) {
+		case *ssa.Global:
+			if tracked[x.Pkg.Pkg.Path()+"."+x.Name()] {
+				return x.Pkg.Pkg.Path() + "." + x.Name()
+			}
+		case *ssa.UnOp:
+			return chase(x.X, depth+1)
+		case *ssa.FieldAddr:
+			return chase(x.X, depth+1)
+		case *ssa.IndexAddr:
+			return chase(x.X, depth+1)
+		case *ssa.Slice:
+			return chase(x.X, depth+1)
+		}
+		return ""
+	}
+	var out []string
+	for _, fn := range P.RepoFuncs() {
+		for _, b := range fn.Blocks {
+			for _, ins := range b.Instrs {
+				var g string
+				switch x := ins.(type) {
+				case *ssa.Store:
+					g = chase(x.Addr, 0)
+				case *ssa.MapUpdate:
+					g = chase(x.Map, 0)
+				}
+				if g != "" {
+					out = append(out, fmt.Sprintf("%s writes %s at %s", FuncKey(fn), g, P.Pos(ins.Pos())))
+				}
+			}
+		}
+	}
+	sort.Strings(out)
+	return out
 }
